@@ -99,6 +99,63 @@ Theorem C07_brightness_zeroth_size_symmetric : forall (w : list R),
   /\ forall a b, (a < length w)%nat -> (b < length w)%nat -> @mget ROps (@bz_matrix ROps w) a b = @mget ROps (@bz_matrix ROps w) b a.
 Proof. exact (fun w => conj (T_bz_size w) (T_bz_sym w)). Qed.
 
+(* ---------------- split-cross schemes (ConstantSplit, AdaptiveBrightnessSplit) ----------------
+   On prepared rows (the (vertex, weight) pairs of the 4 cross points of every pixel, vertices distinct within a row):
+   H = eps I + sum_k rw_{k/4}^2 v_k v_k^T, i.e. ridge + Gram matrix: symmetric and positive definite. *)
+Theorem C07_split_quadratic_form : forall (eps : R) (w : list R) (prows : list (list (nat * R))) (x : list R),
+  prows_ok prows = true -> length x = (length prows / 4)%nat ->
+  @quad ROps (@split_matrix_prepared ROps eps w prows) x = @qf_split_prepared ROps eps w prows x.
+Proof. exact T_split_qf. Qed.
+Theorem C07_qf_split_prepared_meaning : forall (eps : R) (w : list R) (prows : list (list (nat * R))) (x : list R),
+  @qf_split_prepared ROps eps w prows x =
+  sumR (map (fun kr => nth (fst kr / 4) w 0 * nth (fst kr / 4) w 0
+                       * (sumR (map (fun mw => snd mw * nth (fst mw) x 0) (snd kr)) * sumR (map (fun mw => snd mw * nth (fst mw) x 0) (snd kr))))
+            (indexed prows))
+  + eps * sumR (map (fun v => v * v) x).
+Proof. exact qf_split_prepared_meaning. Qed.
+Theorem C07_split_size : forall (eps : R) (w : list R) (prows : list (list (nat * R))),
+  length (@split_matrix_prepared ROps eps w prows) = (length prows / 4)%nat
+  /\ Forall (fun r => length r = (length prows / 4)%nat) (@split_matrix_prepared ROps eps w prows).
+Proof. exact T_split_size. Qed.
+Theorem C07_split_symmetric : forall (eps : R) (w : list R) (prows : list (list (nat * R))), prows_ok prows = true ->
+  forall a b, (a < length prows / 4)%nat -> (b < length prows / 4)%nat ->
+  @mget ROps (@split_matrix_prepared ROps eps w prows) a b = @mget ROps (@split_matrix_prepared ROps eps w prows) b a.
+Proof. exact T_split_sym. Qed.
+Theorem C07_split_positive_definite : forall (eps : R) (w : list R) (prows : list (list (nat * R))) (x : list R),
+  0 < eps -> prows_ok prows = true -> length x = (length prows / 4)%nat -> (exists i, nth i x 0 <> 0) ->
+  0 < @quad ROps (@split_matrix_prepared ROps eps w prows) x.
+Proof. exact T_split_pd. Qed.
+(* reg_split_from on one raw row (mappings, size, weights) of cross point k of pixel q: it succeeds, keeps the vertices
+   distinct and in range, and the row afterwards evaluates x_q - sum_l w_l x_{m_l} (the own pixel is given weight
+   +1 -- appended when it was not a vertex -- and the interpolation weights are negated) *)
+Theorem C07_reg_split_row : forall P max_j q mp size (w : list R),
+  split_row_ok P max_j (mp, size, w) = true -> (q < P)%nat ->
+  exists r' prow', @reg_split_row ROps (Z.of_nat q) max_j (mp, size, w) = Ok r' /\ @prep_split_row ROps P r' = Some prow'
+    /\ Forall (fun mw : nat * R => (fst mw < P)%nat) prow' /\ NoDup (map fst prow')
+    /\ forall x : list R, sumR (map (fun mw => snd mw * nth (fst mw) x 0) prow')
+                          = nth q x 0 - sumR (map (fun mw => snd mw * nth (fst mw) x 0) (prow0 (mp, size, w))).
+Proof. exact T_reg_split_row. Qed.
+(* the whole pipeline of ConstantSplit / AdaptiveBrightnessSplit: reg_split_from, then the matrix.  For every table of
+   raw rows the mapper can hand over (4 per pixel, >= 1 distinct in-range vertices, room for one more entry) it
+   raises nothing, the matrix is square, symmetric, positive definite and
+   x^T H x = sum_k w_{k/4}^2 (x_{k/4} - sum_l w_kl x_{m_kl})^2 + eps |x|^2  (w = the reported weights) *)
+Theorem C07_split_cross_pipeline : forall (eps : R) (w : list R) width (rows : list (list Z * nat * list R)),
+  split_rows_ok width rows = true ->
+  exists rows' H, @reg_split ROps width rows = Ok rows' /\ @split_matrix ROps eps w rows' = Ok H
+    /\ (length H = (length rows / 4)%nat /\ Forall (fun r => length r = (length rows / 4)%nat) H)
+    /\ (forall a b, (a < length rows / 4)%nat -> (b < length rows / 4)%nat -> @mget ROps H a b = @mget ROps H b a)
+    /\ (forall x, length x = (length rows / 4)%nat -> @quad ROps H x = @qf_split ROps eps w (map prow0 rows) x)
+    /\ (0 < eps -> forall x, length x = (length rows / 4)%nat -> (exists i, nth i x 0 <> 0) -> 0 < @quad ROps H x).
+Proof. exact T_split_pipeline. Qed.
+Theorem C07_qf_split_meaning : forall (eps : R) (w : list R) (prows0 : list (list (nat * R))) (x : list R),
+  @qf_split ROps eps w prows0 x =
+  sumR (map (fun kr => nth (fst kr / 4) w 0 * nth (fst kr / 4) w 0
+                       * ((nth (fst kr / 4) x 0 - sumR (map (fun mw => snd mw * nth (fst mw) x 0) (snd kr)))
+                          * (nth (fst kr / 4) x 0 - sumR (map (fun mw => snd mw * nth (fst mw) x 0) (snd kr)))))
+            (indexed prows0))
+  + eps * sumR (map (fun v => v * v) x).
+Proof. exact qf_split_meaning. Qed.
+
 (* ---------------- assembly over the linear objects ---------------- *)
 (* entry (a,b) of the assembled matrix: inside the block of the object that owns both a and b (blocks taken in
    the order of the list), zero elsewhere *)
@@ -129,6 +186,14 @@ Proof. vm_compute. reflexivity. Qed.
 (* a multigraph with an isolated pixel and a duplicated edge *)
 Example C07_nb_ok_multi : wnb_ok [1; 2; 3; 4] [[1; 1; 2]; [0; 0]; [0]; []]%nat = true.
 Proof. vm_compute. reflexivity. Qed.
+(* two pixels, 8 cross rows of width 3: single-vertex rows and an interior row with both vertices *)
+Example C07_split_rows_ok :
+  split_rows_ok 3 [([0; -1; -1]%Z, 1%nat, [1; 0; 0]); ([1; 0; -1]%Z, 2%nat, [/2; /2; 0]); ([1; -1; -1]%Z, 1%nat, [1; 0; 0]);
+                   ([0; -1; -1]%Z, 1%nat, [1; 0; 0]); ([1; -1; -1]%Z, 1%nat, [1; 0; 0]); ([0; 1; -1]%Z, 2%nat, [/2; /2; 0]);
+                   ([0; -1; -1]%Z, 1%nat, [1; 0; 0]); ([1; -1; -1]%Z, 1%nat, [1; 0; 0])] = true.
+Proof. vm_compute. reflexivity. Qed.
+Example C07_prows_ok : prows_ok [[(0%nat, 1)]; [(1%nat, /2); (0%nat, /2)]; [(1%nat, 1)]; [(0%nat, 1)]; [(1%nat, 1)]; [(0%nat, /2); (1%nat, /2)]; [(0%nat, 1)]; [(1%nat, 1)]] = true.
+Proof. vm_compute. reflexivity. Qed.
 Example C07_nonzero_vector : exists i, nth i [0; 0; 1; 0; 0; 0] 0 <> 0.
 Proof. exists 2%nat. cbn. apply R1_neq_R0. Qed.
 
@@ -153,6 +218,14 @@ Print Assumptions C07_adaptive_weights.
 Print Assumptions C07_brightness_zeroth_quadratic_form.
 Print Assumptions C07_brightness_zeroth_psd.
 Print Assumptions C07_brightness_zeroth_size_symmetric.
+Print Assumptions C07_split_quadratic_form.
+Print Assumptions C07_qf_split_prepared_meaning.
+Print Assumptions C07_split_size.
+Print Assumptions C07_split_symmetric.
+Print Assumptions C07_split_positive_definite.
+Print Assumptions C07_reg_split_row.
+Print Assumptions C07_split_cross_pipeline.
+Print Assumptions C07_qf_split_meaning.
 Print Assumptions C07_block_placement_in_order.
 Print Assumptions C07_assembly_size.
 Print Assumptions C07_none_is_zero_block.
